@@ -163,7 +163,7 @@ def poly_parts(P):
 
 # ----------------------------------------------------------------------------- the op language
 MODELLED = ("evaluate", "evalprops", "assume", "reduce", "negate", "errors", "flatten", "dump", "eqb", "poly")
-OBSERVE_ONLY = ("json", "text", "b64", "short", "variables", "taut", "solve", "deepcopy")   # pure by C09; modelled as ODump
+OBSERVE_ONLY = ("json", "text", "b64", "short", "variables", "taut", "solve", "deepcopy", "derived")   # pure by C09; modelled as ODump
 
 def apply_op(obj, op):
     """run one call on the implementation; returns the raw answer or the exception"""
@@ -200,6 +200,18 @@ def apply_op(obj, op):
         if k == "solve":                      # the built-in solver (solver=None); only what it leaves behind matters here
             return [[sorted((str(i), int(v)) for i, v in (d or {}).items()), None if val is None else int(val), int(st)]
                     for d, val, st in obj.solve([dict(o) for o in op["objs"]])]
+        if k == "derived":
+            # a proposition the library handed out (assume / reduce / negate of obj) is used further on - queried with a
+            # dictionary that names ITS sub-propositions; that is the derived object's business, never the receiver's
+            r = obj.assume(mk_dict(op["d"])) if op["how"] == "assume" else obj.reduce() if op["how"] == "reduce" else obj.negate()
+            if not is_var(r):
+                cids = sorted(x.id for x in all_nodes(r) if not is_var(x))
+                d2 = {cids[(op["pick"] + j) % len(cids)]: v for j, v in enumerate(op["vals"])}
+                try:
+                    r.evaluate(dict(d2)); r.assume(dict(d2))
+                except Exception:
+                    pass
+            return "used"
         if k == "deepcopy":
             import copy
             return sdump(copy.deepcopy(obj))
@@ -348,7 +360,14 @@ def gen_history(rng, g, objs, n, compound, allow_poly=True):
                 lv = leaves_of(objs[k]) if not is_var(objs[k]) else []
                 if 0 < len(lv) <= 8 and all(l.bounds.as_tuple() == (0, 1) for l in lv) and not objs[k].errors():
                     kinds += ["solve", "solve"]
+            if rng.random() < 0.12 and not is_var(objs[k]):
+                kinds = ["derived"]
             op = {"op": rng.choice(kinds), "obj": k}
+            if op["op"] == "derived":
+                # (results of negate() / reduce() share sub-proposition OBJECTS with their receiver, so using them like this
+                # reaches the receiver through finding D2; results of assume() are built anew)
+                op.update({"how": "assume", "d": gen_dict(rng, g, objs, k, False)[:2],
+                           "pick": rng.randrange(8), "vals": [rng.choice([0, 1]) for _ in range(rng.randint(1, 2))]})
             if op["op"] == "solve":
                 op["objs"] = [{l.id: rng.randint(-2, 3) for l in rng.sample(lv, rng.randint(1, len(lv)))} for _ in range(rng.randint(1, 2))]
             if op["op"] == "poly":
